@@ -2,7 +2,8 @@
 //! circuit breaker under a forced interleaving of the breaker's scheduling points, on the virtual clock.
 //! case: base_ms strategy retry min_req interval buckets max_rt thr_bits
 //!       npre (B | X err | A dt)*                      sequential prelude (no scheduling)
-//!       nthreads { nops (B other | X err)* }*  nsteps (tid dt_ms)*
+//!       nthreads { nops (B other | X err)* }*  nsteps (tid dt_ms)* [F]
+//!       a trailing F: no forced schedule, the threads run freely in parallel while a ticker advances the clock
 //!       B other: other = 1 makes a slot after the breaker slot reject this entry (it passes the scheduling
 //!       point "cb:oracle" first); prelude builds are never rejected
 //! out : all_done ntrace (tid point)* ; nlog (kind a b c d)* ; final_state retry_rel
@@ -183,6 +184,43 @@ pub fn run_case(t: &mut Toks) -> Vec<i128> {
     }
     let sched_ids: Vec<usize> = steps.iter().map(|s| s.0).collect();
     let dts: Vec<u64> = steps.iter().map(|s| s.1).collect();
+    let free = !t.done() && t.s() == "F";
+    if free {
+        // real concurrency: the threads run freely while a ticker advances the virtual clock; only the listener
+        // events (delivered under the breaker's state lock) are meaningful in the log order
+        let stop = Arc::new(std::sync::atomic::AtomicBool::new(false));
+        let stop2 = stop.clone();
+        let ticker = std::thread::spawn(move || {
+            while !stop2.load(std::sync::atomic::Ordering::SeqCst) {
+                clock::advance_ns(1_000_000);
+                std::thread::sleep(std::time::Duration::from_micros(30));
+            }
+        });
+        let barrier = Arc::new(std::sync::Barrier::new(bodies.len()));
+        let hs: Vec<_> = bodies
+            .into_iter()
+            .map(|b| {
+                let barrier = barrier.clone();
+                std::thread::spawn(move || {
+                    barrier.wait();
+                    std::panic::catch_unwind(std::panic::AssertUnwindSafe(b)).is_ok()
+                })
+            })
+            .collect();
+        let ok = hs.into_iter().all(|h| h.join().unwrap_or(false));
+        stop.store(true, std::sync::atomic::Ordering::SeqCst);
+        let _ = ticker.join();
+        out.push(ok as i128);
+        out.push(0);
+        let log = LOG.lock().unwrap().clone();
+        out.push(log.len() as i128);
+        for e in log {
+            out.extend(e);
+        }
+        out.push(st(bs[0].current_state()));
+        out.push(rel(bs[0].next_retry_timestamp_ms()));
+        return out;
+    }
     let (trace, all_done) = sched::run(
         bodies,
         &sched_ids,
